@@ -4,6 +4,7 @@ package c15
 import (
 	"fmt"
 	"github.com/ctessum/geom"
+	"math"
 	"testing"
 
 	"pgregory.net/rapid"
@@ -21,7 +22,8 @@ type Case struct {
 type builder struct {
 	t     *rapid.T
 	tol   float64
-	block int // every leaf member gets its own lattice block, so distinct members are far apart
+	nojit bool // positive copies are exact copies (no perturbation)
+	block int  // every leaf member gets its own lattice block, so distinct members are far apart
 }
 
 // pts draws n pairwise distinct lattice points of the current block; spacing 100*tol.
@@ -163,6 +165,9 @@ func (b *builder) geom(depth int) vkit.GJ {
 }
 
 func (b *builder) jit(p vkit.P2) vkit.P2 {
+	if b.nojit {
+		return p
+	}
 	d := func() float64 { return rapid.Float64Range(-0.98, 0.98).Draw(b.t, "jit") * b.tol }
 	return vkit.MkP(float64(p[0])+d(), float64(p[1])+d())
 }
@@ -492,10 +497,90 @@ func (b *builder) closure() (g, h vkit.GJ, want bool, label string) {
 	return g, h, want, "closure:" + mode
 }
 
+// mapCoords applies f to every coordinate of g.
+func mapCoords(g vkit.GJ, f func(float64) float64) vkit.GJ {
+	mp := func(p []vkit.P2) []vkit.P2 {
+		out := make([]vkit.P2, len(p))
+		for i, q := range p {
+			out[i] = vkit.MkP(f(float64(q[0])), f(float64(q[1])))
+		}
+		return out
+	}
+	out := vkit.GJ{T: g.T}
+	if g.Pts != nil {
+		out.Pts = mp(g.Pts)
+	}
+	for _, r := range g.Rings {
+		out.Rings = append(out.Rings, mp(r))
+	}
+	for _, pg := range g.Polys {
+		var rs [][]vkit.P2
+		for _, r := range pg {
+			rs = append(rs, mp(r))
+		}
+		out.Polys = append(out.Polys, rs)
+	}
+	for _, m := range g.Geoms {
+		out.Geoms = append(out.Geoms, mapCoords(m, f))
+	}
+	return out
+}
+
+// coordSlots lists pointers to every coordinate of g (in place).
+func coordSlots(g *vkit.GJ) []*vkit.F {
+	var out []*vkit.F
+	add := func(p []vkit.P2) {
+		for i := range p {
+			out = append(out, &p[i][0], &p[i][1])
+		}
+	}
+	add(g.Pts)
+	for _, r := range g.Rings {
+		add(r)
+	}
+	for _, pg := range g.Polys {
+		for _, r := range pg {
+			add(r)
+		}
+	}
+	for i := range g.Geoms {
+		out = append(out, coordSlots(&g.Geoms[i])...)
+	}
+	return out
+}
+
 func gen(t *rapid.T) Case {
 	b := &builder{t: t, tol: rapid.SampledFrom([]float64{1e-6, 1e-3, 0.1, 1}).Draw(t, "tol")}
 	var c Case
 	c.Tol = b.tol
+	if rapid.IntRange(0, 9).Draw(t, "farfine") == 6 {
+		// a tolerance finer than the spacing of the floating-point numbers at the coordinates' magnitude (1e-9 at 2^30, or
+		// 1e-12 at 2^20): "perturbed by less than tol" leaves only the identical coordinate, and the smallest possible move -
+		// one to three steps to the neighbouring floating-point number - is already a displacement by far more than tol
+		b.tol, b.nojit = 1, true
+		g := b.geom(rapid.IntRange(0, 1).Draw(t, "depth"))
+		nt := false
+		h := b.positive(g, &nt)
+		off, tol := math.Ldexp(1, 30), 1e-9
+		if rapid.Bool().Draw(t, "farfine20") {
+			off, tol = math.Ldexp(1, 20), 1e-12
+		}
+		f := func(v float64) float64 { return math.Round(v) + math.Copysign(off, v) }
+		c.G, c.H, c.Tol, c.Want, c.Edit = mapCoords(g, f), mapCoords(h, f), tol, true, "farfine:identical"
+		if slots := coordSlots(&c.H); len(slots) > 0 && rapid.Bool().Draw(t, "farfinemove") {
+			sl := slots[rapid.IntRange(0, len(slots)-1).Draw(t, "farfineslot")]
+			v, dir := float64(*sl), math.Inf(1)
+			if rapid.Bool().Draw(t, "farfinedown") {
+				dir = math.Inf(-1)
+			}
+			for i, k := 0, rapid.IntRange(1, 3).Draw(t, "farfinesteps"); i < k; i++ {
+				v = math.Nextafter(v, dir)
+			}
+			*sl = vkit.F(v)
+			c.Want, c.Edit = false, "farfine:one_coordinate_moved_by_1-3_ulps"
+		}
+		return c
+	}
 	if rapid.IntRange(0, 7).Draw(t, "closurecase") == 3 {
 		c.G, c.H, c.Want, c.Edit = b.closure()
 		return c
